@@ -46,6 +46,9 @@ def load_helpers(model, rel, utils_rel='asn1tools/source/c/utils.py'):
 def parse_c(text, structs):
     import pycparser
     src = PRELUDE + structs + '\n' + text
+    # comments are not C tokens: /* ... */ becomes its new-lines (line numbers kept), // ... is cut at the end of the line
+    src = re.sub(r'/\*.*?\*/', lambda m_: '\n' * m_.group(0).count('\n') or ' ', src, flags=re.S)
+    src = re.sub(r'//[^\n]*', '', src)
     for k, v in ERRNOS.items():
         src = re.sub(r'\b%s\b' % k, str(v), src)
     try:
